@@ -731,6 +731,13 @@ structure GenDesc where
   ctors : List Bytes            -- the constructors `fin` can answer
   finLits : List Lit := []      -- the error literals `fin` can answer
 
+/-- the finishing function answers only the constructors and the error literals its descriptor declares
+    (`unreachable`: it was handed tokens of another shape, which `runGen` never does) -/
+def FinOk (d : GenDesc) : Prop :=
+  ∀ ts tv, match d.fin ts tv with
+    | .ok c => c.ctor ∈ d.ctors
+    | .error e => e = .unreachable ∨ ∃ l ∈ d.finLits, e = .lit l
+
 /-- the leading slots, left to right; the rest of the arguments -/
 def takeSlots : List Arg → List Bytes → Except BErr (List Tok × List Bytes)
   | [], vs => .ok ([], vs)
@@ -788,10 +795,11 @@ structure CustomBody where
   /-- the shape of the body: `f` IS the generic body over it -/
   desc : GenDesc
   desc_ok : ∀ args, f args = runGen desc args
+  fin_ok : FinOk desc
 
 /-- a body without keyword positions -/
-def CustomBody.plain (d : GenDesc) (f : List Bytes → BRes) (h : ∀ args, f args = runGen d args) : CustomBody :=
-  ⟨f, fun a b => a == b, by intro a b h; simp at h; rw [h], d, h⟩
+def CustomBody.plain (d : GenDesc) (f : List Bytes → BRes) (h : ∀ args, f args = runGen d args) (hf : FinOk d) : CustomBody :=
+  ⟨f, fun a b => a == b, by intro a b h; simp at h; rw [h], d, h, hf⟩
 
 inductive Body where
   | const (ctor : Bytes)                                  -- arguments are not looked at
